@@ -2,7 +2,7 @@
    Print Assumptions. *)
 From Coq Require Import ZArith QArith List Bool.
 From Centro Require Import Base.VecC13 Model.Circle Model.CircleVec Model.Feret Model.HullFill Spec.MecSpec Spec.ChrystalHyp Spec.FeretSpec Spec.FeretLower Spec.FillSpec
-  Proofs.MecProofs Proofs.CircleProofs Proofs.ChrystalFull Proofs.ChrystalHull Spec.HullSpec Proofs.CircleVecProofs Proofs.CircleVecStep Proofs.FeretProofs Proofs.FeretLowerProofs Proofs.SweepProofs Proofs.FillProofs Proofs.FillEdgeProofs Proofs.FillModelProofs.
+  Proofs.MecProofs Proofs.CircleProofs Proofs.ChrystalFull Proofs.ChrystalHull Spec.HullSpec Proofs.CircleVecProofs Proofs.CircleVecStep Proofs.FeretProofs Proofs.FeretLowerProofs Proofs.SweepProofs Spec.CalipersHyp Proofs.CalipersMax Proofs.FillProofs Proofs.FillEdgeProofs Proofs.FillModelProofs.
 
 (* Full.  Soundness of the certificate checker that is run on the exact circle reconstructed from
    the implementation's output: the circle contains every pixel centre of S and no circle
@@ -168,14 +168,28 @@ Theorem C14_sweep_advance_test_exact : forall n1 n2 den : Z, (0 < den)%Z ->
 Proof. exact advance_test_exact. Qed.
 Print Assumptions C14_sweep_advance_test_exact.
 
+(* Full (calipers = brute force, maximum).  For every strictly convex vertex cycle, in either
+   orientation and from any starting vertex (strict_convex_ok: every other vertex strictly on one
+   side of every edge), the maximum reported by the antipodal sweep as written IS the largest
+   pairwise squared distance: a farthest pair is antipodal (diameter_antipodal_1/2: sign conditions
+   on the edge directions at the pair, from the half-plane conditions and |.| <= diameter), the
+   distance to an edge's line has no valley along the cycle (no_valley, by Cramer's rule in the
+   cone of a vertex), and therefore the sweep's staircase path cannot step past the pair
+   (row / column lemmas, a0 <= q, path_reaches).  The hypothesis is evaluated on every run's hulls. *)
+Theorem C14_calipers_max_eq_bruteforce : forall h mx mn,
+  strict_convex_ok h = true -> sweep h = Some (mx, mn) -> mx = max_d2 h.
+Proof. exact sweep_max_complete. Qed.
+Print Assumptions C14_calipers_max_eq_bruteforce.
+
 (* Partial (calipers = brute force).  Proved about the executable model of the antipodal sweep, for
    every vertex list: it terminates (above), it only records pairs of valid, distinct hull indices,
-   and so the maximum it reports never exceeds the largest pairwise distance.  Missing, by name:
-   diameter_is_antipodal (a farthest pair of a convex polygon admits parallel supporting lines),
-   sweep_antipodal_complete (for a strictly convex cycle in either orientation the recorded pairs
-   contain every antipodal vertex pair), and width_at_antipodal_edge (the narrowest edge strip is
-   found at a vertex having both end points of that edge as antipodes) - the rotating-calipers
-   invariant.  Instead, on every run the model's maximum and minimum are compared with brute force
+   and so the maximum it reports never exceeds the largest pairwise distance (for lists that are not
+   strictly convex; the equality for strictly convex cycles is C14_calipers_max_eq_bruteforce).
+   Missing for the MINIMUM, by name: width_at_antipodal_edge (the narrowest edge strip is found at a
+   vertex v that has both end points a, a+1 of that edge among its recorded antipodes, so that the
+   code's "second antipode is one less than its successor" filter keeps the pair) and
+   min_candidates_are_widths (every kept candidate is the full width of its edge: v is a farthest
+   vertex from edge a -> a+1); both follow from the same row / column description of the path.  Instead, on every run the model's maximum and minimum are compared with brute force
    on the same vertex list (any disagreement is reported as a refutation; none in 30 000+ calls),
    and the implementation's values are certified against the object's full pixel set by the
    verified checkers max_d2 / feret_min_ok / feret_lower_ok. *)
